@@ -1,5 +1,7 @@
 import Dashu.Driver.Loop
 import Dashu.Model.Float.Repr
+import Dashu.Gen.FloatNorm
+import Dashu.Model.Int.FloatConst
 /-
   C05 driver ops that need the float ARITHMETIC model of C03 (`Dashu.Model.Float`): values rounded through the
   borrowing / owning rounding routes of `Context` (`f.ctx`).  Linked into the `bits` group driver
@@ -21,8 +23,59 @@ def parseTag (t : String) : Option (Nat × Mode) := do
 def isNorm (B : Nat) (r : FRepr) : Bool :=
   if r.signif = 0 then r.exp == 0 else r.signif.natAbs % B != 0
 
-def dispatchCtx : Dispatch := fun _ op args =>
+/-- `Repr::<B>::new` = `Repr::normalize` AS REGENERATED from float/src/repr.rs (`Gen/FloatNorm.lean`; the `UBig::remove`
+    arm runs C12's mirrored squaring-tower algorithm).  `Props/GenFloatNorm.normalize_is_repr_new` proves it equal to the
+    hand model `FRepr.new` for every base and input. -/
+def reprNewGen (B : Nat) (s e : Int) : FRepr :=
+  let g := Dashu.Gen.Repr_normalize ⟨(B : Int)⟩ ⟨s, e⟩
+  ⟨g.significand, g.exponent⟩
+
+/-- `isize` range of the host (64-bit): exponents outside cannot be passed to the harness -/
+def isizeOk (e : Int) : Bool := decide (-(2 : Int) ^ 63 ≤ e ∧ e < (2 : Int) ^ 63)
+
+/-- bit length of a natural number -/
+def bitLenN (n : Nat) : Nat := if n = 0 then 0 else Nat.log2 n + 1
+
+def dispatchCtx : Dispatch := fun W op args =>
   match op, args with
+  | "c.ext", [xa, na] => do
+    -- E1: the producers with a `usize` count at ANY count.  Spec level (the mirrored kernels and their canonical-form
+    -- theorems for every Nat count are C09's / `producers_canonical`): for `n > bit_len |x|` the closed forms, else `2^n`
+    let x ← parseInt xa; let n ← parseDecNat na
+    if n > 18446744073709551615 then none
+    let u := x.natAbs
+    let big := decide (n > bitLenN u)
+    if !big && n > 1048576 then none
+    let shrI : Int := if big then (if x < 0 then -1 else 0) else x / (2 : Int) ^ n
+    let shrU : Nat := if big then 0 else u / 2 ^ n
+    let lo : Nat := if big then u else u % 2 ^ n
+    let cb : Nat := if big then u else (if (u / 2 ^ n) % 2 = 1 then u - 2 ^ n else u)
+    let root : String := if n ≥ 1 ∧ n ≥ bitLenN u then (if u = 0 then "0" else "1") else "-"
+    pure ("ok " ++ intToHex shrI ++ " " ++ natToHex shrU ++ " " ++ natToHex lo ++ " " ++ natToHex lo ++ " " ++ natToHex shrU
+      ++ " " ++ natToHex cb ++ " " ++ root ++ " canon")
+  | "f.norm", [b, sa, ea] => do
+    -- the regenerated normaliser alone; the spec side is its contract: the same value `s·B^e`, significand not
+    -- divisible by the base, zero as `0·B^0` (and the hand model `FRepr.new` must agree)
+    let B ← parseDecNat b
+    if B < 2 then none
+    let s ← parseInt sa; let e ← parseDec ea
+    let r := reprNewGen B s e
+    if !(isizeOk e && isizeOk r.exp) then none          -- `exponent += shift` would overflow isize: not a case
+    let h := FRepr.new B s e
+    let okv := if s = 0 then r.signif == 0 && r.exp == 0
+               else isNorm B r && decide (e ≤ r.exp) && decide (s = r.signif * (B : Int) ^ (r.exp - e).toNat)
+    let bad := (if okv then "" else " !model-spec-mismatch contract") ++
+      (if h.signif == r.signif && h.exp == r.exp then "" else " !model-spec-mismatch hand-model=" ++ intToHex h.signif ++ "e" ++ toString h.exp)
+    -- `FBig::from_parts_const` (its own normaliser and precision loop, mirrored in Model/Int/FloatConst.lean) when the
+    -- magnitude fits a double word: the same representation (theorem `from_parts_const_normalized`), digits ≤ precision + 1
+    let (pc, bad2) :=
+      if s.natAbs < 2 ^ (2 * W) then
+        let c := Dashu.Model.fromPartsConst W B (decide (s < 0)) s.natAbs e none
+        ("pc:" ++ toString c.2,
+         (if c.1.signif == r.signif && c.1.exp == r.exp then "" else " !model-spec-mismatch const-repr") ++
+         (if Dashu.Model.digitsNat B c.1.signif.natAbs ≤ c.2 + 1 then "" else " !model-spec-mismatch const-digits"))
+      else ("pc:-", "")
+    pure ("ok " ++ intToHex r.signif ++ " " ++ decStr r.exp ++ " " ++ pc ++ " routes-agree" ++ bad ++ bad2)
   | "f.ctx", [tag, sa, ea, pa, sb, eb] => do
     -- `x = s·B^e` rounded ONCE to `p` digits: `Context::repr_round` and its borrowing twin
     -- `repr_round_ref` are the same function of the value (`reprRound`); every route of the harness must
@@ -30,7 +83,7 @@ def dispatchCtx : Dispatch := fun _ op args =>
     let (B, m) ← parseTag tag
     let s ← parseInt sa; let e ← parseDec ea; let p ← parseDecNat pa
     let _ ← parseInt sb; let _ ← parseDec eb
-    let x := FRepr.new B s e
+    let x := reprNewGen B s e                    -- the regenerated `Repr::new` (round 5)
     let r := (reprRound B m coarseNone p x).1
     let bad := (if isNorm B r then "" else " !model-noncanon")
       ++ (if p ≠ 0 ∧ r.digits B > p then " !model-digits" else "")
